@@ -15,7 +15,7 @@ REQUIRED = ['cw_exact', 'cw_none', 'cw_unique',
             'smith_is_least_dominating', 'schwartz_is_union_of_minimal_undominated',
             'smith_nodup', 'schwartz_nodup', 'smith_of_cw', 'schwartz_subset_smith', 'dominating_iff', 'undominated_iff']
 UNPROVED = []
-NAME_MODES = ['str', 'int0', 'empty0']
+NAME_MODES = ['str', 'int0', 'empty0', 'person']
 REQUIRED_COUNTERS = ['fully_tied_pair', 'mutually_tied_unbeaten', 'missing_pair', 'missing_reverse', 'has_cw', 'cycle',
                      'from_ranked', 'all_tied', 'fraction']
 RULE = ('pairwise dictionaries over 2-6 candidates (7 occasionally): per unordered pair one of x wins / y wins / tie / both '
